@@ -1,10 +1,12 @@
 package main
 
 import (
+	"bytes"
 	"encoding/csv"
 	"encoding/json"
 	"flag"
 	"fmt"
+	"gopkg.in/yaml.v3"
 	"os"
 	"path/filepath"
 	"strings"
@@ -101,6 +103,26 @@ func (d *nbDriver) newTrace(cls string, ents []database.Command) {
 		os.WriteFile(d.personal(), []byte("- command: [unclosed\n\t: : :\n"), 0o644)
 	case "list":
 		writeYAML(d.personal(), ents)
+		// a notebook its owner edits by hand need not look like what the tool writes
+		if b, err := os.ReadFile(d.personal()); err == nil && len(ents) > 0 {
+			switch d.tr % 5 {
+			case 1: // no newline at the end of the file
+				b = bytes.TrimRight(b, "\n")
+			case 2: // the whole list indented, under a comment
+				b = append([]byte("# my commands\n  "), bytes.ReplaceAll(bytes.TrimRight(b, "\n"), []byte("\n"), []byte("\n  "))...)
+				b = append(b, '\n')
+			case 3: // flow style (JSON is YAML)
+				var generic []map[string]interface{}
+				if yaml.Unmarshal(b, &generic) == nil {
+					if j, err := json.Marshal(generic); err == nil {
+						b = j
+					}
+				}
+			case 4: // a trailing comment and blank lines
+				b = append(b, []byte("\n\n# end of my notebook")...)
+			}
+			os.WriteFile(d.personal(), b, 0o644)
+		}
 	}
 	ocls, oents := d.observe()
 	d.w.emit(&nbEv{Op: "set", Tr: d.tr, Cls: ocls, Ents: oents, Merged: [][]int{}, Main: [][]int{}})
